@@ -573,6 +573,10 @@ func (f *File) Read(p []byte) (n int, err error) {
 	f.ioLock.Lock()
 	defer f.ioLock.Unlock()
 
+	return f.readWithoutLocking(p)
+}
+
+func (f *File) readWithoutLocking(p []byte) (n int, err error) {
 	if f.info.IsDir() {
 		return 0, config.ErrIsDirectory
 	}
@@ -646,19 +650,19 @@ func (f *File) ReadAt(p []byte, off int64) (n int, err error) {
 		return 0, nil
 	}
 
+	// One critical section: another call on this handle must not move the cursor between the seek and the read
 	f.ioLock.Lock()
-	isDir := f.info.IsDir()
-	f.ioLock.Unlock()
+	defer f.ioLock.Unlock()
 
-	if isDir {
+	if f.info.IsDir() {
 		return 0, config.ErrIsDirectory
 	}
 
-	if _, err := f.Seek(off, io.SeekStart); err != nil {
+	if _, err := f.seekWithoutLocking(off, io.SeekStart); err != nil {
 		return 0, err
 	}
 
-	return f.Read(p)
+	return f.readWithoutLocking(p)
 }
 
 // Read/write operations
